@@ -3,6 +3,7 @@ package props
 import (
 	"fmt"
 	"math/big"
+	"os"
 	"testing"
 
 	sdkmath "cosmossdk.io/math"
@@ -102,6 +103,9 @@ func (e *c11Env) call(ctx sdk.Context, i int, method string, args ...interface{}
 	r := e.f.EthTx(ctx, e.f.Users[i%4], &sim.StakingAddr, nil, data, 3_000_000)
 	if r.Panic != "" {
 		return false, "PANIC " + r.Panic
+	}
+	if !r.Success() && r.Resp != nil && os.Getenv("VERIF_DEBUG") != "" {
+		fmt.Printf("CALL %s failed: vmerr=%q ret=%q err=%v\n", method, r.Resp.VmError, string(r.Resp.Ret), r.Err)
 	}
 	return r.Success(), ""
 }
@@ -375,7 +379,7 @@ func runC11(c c11Case, rec *ev.Recorder) *Failure {
 				return failf("C11/final-withdraw-fails", "actor %d cannot withdraw rewards from %s at the end of the history %s", i, val, p)
 			}
 			v, _ := f.App.StakingKeeper.GetValidator(ctx, val)
-			tokens := v.TokensFromShares(d.Shares).TruncateInt()
+			tokens := v.TokensFromSharesTruncated(d.Shares).TruncateInt() // (the rounding variant can exceed the delegation by one base unit)
 			if !tokens.IsPositive() {
 				continue
 			}
